@@ -1,6 +1,6 @@
 (** Single dispatch point: the extracted driver and the in-Coq cross-check both call this. *)
 From Coq Require Import ZArith QArith String List.
-From QS Require Import theories.Val theories.EntryBroker theories.EntryCal theories.EntryPcm theories.EntryData theories.EntrySignals theories.EntryStats.
+From QS Require Import theories.Val theories.EntryBroker theories.EntryCal theories.EntryPcm theories.EntryData theories.EntrySignals theories.EntryStats theories.EntryBacktest.
 Import ListNotations.
 Open Scope string_scope.
 
@@ -22,4 +22,6 @@ Definition dispatch (name : string) (v : val) : val :=
   else if String.eqb name "data_multi" then entry_data_multi v
   else if String.eqb name "signals" then entry_signals v
   else if String.eqb name "stats" then entry_stats v
+  else if String.eqb name "session" then entry_session v
+  else if String.eqb name "spec" then entry_spec v
   else VL [VS "UNKNOWN_ENTRY"].
